@@ -333,6 +333,8 @@ def run(ctx):
     for chunk in core.split(ints, 16):
         jobs.append(("int", chunk))
     part = core.fan_out(ctx, _dispatch, jobs)
+    from .. import callforms              # pylint: disable=import-outside-toplevel
+    part.merge(callforms.explore("C20"))
     cnt = part.counters
     total = cnt.get("escape_cases", 0) + cnt.get("duration_cases", 0)
     coverage = {
@@ -370,6 +372,9 @@ def run(ctx):
 
 
 def replay(case):
+    if case.get("kind") == "callform":
+        from .. import callforms          # pylint: disable=import-outside-toplevel
+        return callforms.replay(case)
     if case["kind"] == "edge":
         return [m for _c, m in check_duration(case["value"], case["ms"])]
     if case["kind"] == "escape":
